@@ -49,47 +49,47 @@ theorem passEntries_cons_some {st : St} {sh : Nat} {k : Bytes} {sid : Nat} {s : 
          else setScope st sid (reportScope st.sep s).1) rest).1 := by
   rw [passEntries]; simp only [h]
 
-theorem passEntries_prims (sem : Prop) (ok : Bytes → Nat → Prop) :
-    ∀ (entries : List ((Nat × Bytes) × Nat)) (st : St), Prims sem ok st (passEntries st entries).1
+theorem passEntries_prims (sem semD : Prop) (ok : Bytes → Nat → Prop) :
+    ∀ (entries : List ((Nat × Bytes) × Nat)) (st : St), Prims sem semD ok st (passEntries st entries).1
   | [], st => .refl st
   | ((sh, k), sid) :: rest, st => by
     cases hg : getScope st sid with
-    | none => rw [passEntries_cons_none rest hg]; exact passEntries_prims sem ok rest st
+    | none => rw [passEntries_cons_none rest hg]; exact passEntries_prims sem semD ok rest st
     | some s =>
       rw [passEntries_cons_some rest hg]
-      have h1 : Prim sem ok st (setScope st sid (reportScope st.sep s).1) := by
+      have h1 : Prim sem semD ok st (setScope st sid (reportScope st.sep s).1) := by
         rw [reportScope_fst]
         exact .setMetrics st sid s _ hg (by rw [reportScope_sigs]; exact List.Sublist.refl _)
           (fun _ => reportScope_sigs _ _)
       cases hc : s.closed with
       | false =>
         simp only [Bool.false_eq_true, if_false]
-        exact (Prims.one h1).trans (passEntries_prims sem ok rest _)
+        exact (Prims.one h1).trans (passEntries_prims sem semD ok rest _)
       | true =>
         simp only [if_true]
         have hg1 : getScope (setScope st sid (reportScope st.sep s).1) sid
             = some (reportScope st.sep s).1 := getScope_setScope_self hg _
-        have h2 : Prim sem ok (setScope st sid (reportScope st.sep s).1)
+        have h2 : Prim sem semD ok (setScope st sid (reportScope st.sep s).1)
             (regRemove (setScope st sid (reportScope st.sep s).1) sh k sid) :=
           .regRemove _ sh k sid _ hg1 hc
-        have h3 : Prim sem ok (regRemove (setScope st sid (reportScope st.sep s).1) sh k sid)
+        have h3 : Prim sem semD ok (regRemove (setScope st sid (reportScope st.sep s).1) sh k sid)
             (setScope (regRemove (setScope st sid (reportScope st.sep s).1) sh k sid) sid
               { (reportScope st.sep s).1 with metrics := [] }) :=
           .setMetrics _ sid _ [] hg1 (List.nil_sublist _)
             (fun h => by rw [show (reportScope st.sep s).1.closed = s.closed from rfl, hc] at h; cases h)
-        exact (((Prims.one h1).tail h2).tail h3).trans (passEntries_prims sem ok rest _)
+        exact (((Prims.one h1).tail h2).tail h3).trans (passEntries_prims sem semD ok rest _)
 
-theorem reportPass_prims (sem : Prop) (ok : Bytes → Nat → Prop) (st : St) :
-    Prims sem ok st (reportPass st).1 := by
+theorem reportPass_prims (sem semD : Prop) (ok : Bytes → Nat → Prop) (st : St) :
+    Prims sem semD ok st (reportPass st).1 := by
   unfold reportPass
   split
   · exact .refl st
-  · exact passEntries_prims sem ok st.reg st
+  · exact passEntries_prims sem semD ok st.reg st
 
 /-! ## metric operations -/
 
-theorem getMetric_prims (sem : Prop) (ok : Bytes → Nat → Prop) (st : St) (sid : Nat) (kind : String)
-    (n : Bytes) (mk : Bytes → Metric) : Prims sem ok st (getMetric st sid kind n mk).1 := by
+theorem getMetric_prims (sem semD : Prop) (ok : Bytes → Nat → Prop) (st : St) (sid : Nat) (kind : String)
+    (n : Bytes) (mk : Bytes → Metric) : Prims sem semD ok st (getMetric st sid kind n mk).1 := by
   unfold getMetric
   cases hg : getScope st sid with
   | none => exact .refl st
@@ -140,10 +140,10 @@ theorem updMetric_go_spec (mid : Nat) (f : ScopeS → Metric → Metric × List 
       rw [this, List.getElem?_cons_succ]
       exact hget
 
-theorem updMetric_prims (sem : Prop) (ok : Bytes → Nat → Prop) (st : St) (hmet : MetInv st) (mid : Nat)
+theorem updMetric_prims (sem semD : Prop) (ok : Bytes → Nat → Prop) (st : St) (hmet : MetInv st) (mid : Nat)
     (f : ScopeS → Metric → Metric × List Event)
     (hf : ∀ s m, metricKind (f s m).1 = metricKind m ∧ metricName (f s m).1 = metricName m) :
-    Prims sem ok st (updMetric st mid f).1 := by
+    Prims sem semD ok st (updMetric st mid f).1 := by
   unfold updMetric
   split
   · next i s' evs hgo =>
@@ -278,54 +278,65 @@ theorem relookF_cases (st1 : St) (sh : Nat) (rawKey sKey : Bytes) :
         exact ⟨sid, s, rfl, hg, by simp only [relookF, hl, hg, hc, if_true]⟩
 
 /-- clearing a closed scope and removing two of its registry entries -/
-theorem clearRemove_prims (sem : Prop) (ok : Bytes → Nat → Prop) {st : St} {sid : Nat} {s : ScopeS}
+theorem clearRemove_prims (sem semD : Prop) (ok : Bytes → Nat → Prop) {st : St} {sid : Nat} {s : ScopeS}
     (hg : getScope st sid = some s) (hc : s.closed = true) (sh : Nat) (k1 k2 : Bytes) :
-    Prims sem ok st
+    Prims sem semD ok st
       (regRemove (regRemove (setScope st sid { s with metrics := [] }) sh k1 sid) sh k2 sid) := by
-  have h1 : Prim sem ok st (setScope st sid { s with metrics := [] }) :=
+  have h1 : Prim sem semD ok st (setScope st sid { s with metrics := [] }) :=
     .setMetrics st sid s [] hg (List.nil_sublist _) (fun h => by rw [hc] at h; cases h)
   have hg1 : getScope (setScope st sid { s with metrics := [] }) sid = some { s with metrics := [] } :=
     getScope_setScope_self hg _
-  have h2 := Prim.regRemove (sem := sem) (ok := ok) _ sh k1 sid _ hg1 hc
-  have h3 := Prim.regRemove (sem := sem) (ok := ok)
+  have h2 := Prim.regRemove (sem := sem) (semD := semD) (ok := ok) _ sh k1 sid _ hg1 hc
+  have h3 := Prim.regRemove (sem := sem) (semD := semD) (ok := ok)
     (regRemove (setScope st sid { s with metrics := [] }) sh k1 sid) sh k2 sid _ hg1 hc
   exact ((Prims.one h1).tail h2).tail h3
 
-theorem create_spec (sem : Prop) (ok : Bytes → Nat → Prop) (st2 : St) (ns : ScopeS) (sh : Nat)
+theorem create_spec (sem semD : Prop) (ok : Bytes → Nat → Prop) (st2 : St) (ns : ScopeS) (sh : Nat)
     (rawKey sKey : Bytes) (hc : ns.closed = false) (hr : ns.isRoot = false) (hm : ns.metrics = [])
     (hsem : sem → sKey = key ns.pfx [ns.tags] ∧ rawKey = sKey ∧ Canonical ns.tags ∧
-      st2.reg.lookup (sh, sKey) = none ∧ ok sKey sh) :
-    Prims sem ok st2 (createF st2 ns sh rawKey sKey) ∧
+      st2.reg.lookup (sh, sKey) = none ∧ ok sKey sh)
+    (hsemD : semD → Canonical ns.tags ∧ FixedTags st2.cfg ns.tags ∧ ScopeKey st2.cfg sKey ns ∧
+      ScopeKey st2.cfg rawKey ns) :
+    Prims sem semD ok st2 (createF st2 ns sh rawKey sKey) ∧
       getScope (createF st2 ns sh rawKey sKey) st2.scopes.length = some ns := by
   have hget : getScope (regAdd { st2 with scopes := st2.scopes ++ [ns] } sh sKey st2.scopes.length)
       st2.scopes.length = some ns := by
     rw [getScope_regAdd]; exact getScope_append_new st2 ns
   refine ⟨?_, ?_⟩
-  · have h1 : Prim sem ok st2 (regAdd { st2 with scopes := st2.scopes ++ [ns] } sh sKey st2.scopes.length) :=
+  · have h1 : Prim sem semD ok st2 (regAdd { st2 with scopes := st2.scopes ++ [ns] } sh sKey st2.scopes.length) :=
       .create st2 sh sKey ns hc hr hm (fun h => by
         obtain ⟨a, _, c, d, e⟩ := hsem h
-        exact ⟨c, a, d, e⟩)
-    have h2 := Prim.regAdd (sem := sem) (ok := ok) _ sh rawKey st2.scopes.length ns hget (fun h => by
+        exact ⟨c, a, d, e⟩) (fun h => ⟨(hsemD h).1, (hsemD h).2.1, (hsemD h).2.2.1⟩)
+    have h2 := Prim.regAdd (sem := sem) (semD := semD) (ok := ok) _ sh rawKey st2.scopes.length ns hget
+      (fun h => by
         obtain ⟨a, b, _⟩ := hsem h
         rw [b]; exact a)
+      (fun h => by rw [regAdd_cfg]; exact (hsemD h).2.2.2)
     exact (Prims.one h1).tail h2
   · unfold createF
     rw [getScope_regAdd]; exact hget
 
-theorem relook_spec (sem : Prop) (ok : Bytes → Nat → Prop) (st1 : St) (pfx : Bytes)
+theorem relook_spec (sem semD : Prop) (ok : Bytes → Nat → Prop) (st1 : St) (pfx : Bytes)
     (ptags tags tagsS : TagMap) (sh : Nat)
-    (hsem : sem → Inv st1 ∧ tagsS = canon [tags]) (hok : sem → ok (key pfx [ptags, tags]) sh) :
+    (hsem : sem → Inv st1 ∧ tagsS = canon [tags]) (hok : sem → ok (key pfx [ptags, tags]) sh)
+    (hsemD : semD → InvD st1 ∧ tagsS = sanMap st1.cfg tags ∧ SanDistinct st1.cfg tags ∧
+      FixedTags st1.cfg ptags) :
     (∀ sid st2 evs2, relookF st1 sh (key pfx [ptags, tags]) (key pfx [ptags, tagsS]) = (some sid, st2, evs2) →
-      Prims sem ok st1 st2 ∧
-      (sem → ∃ s, getScope st2 sid = some s ∧ s.pfx = pfx ∧ s.tags = canon [ptags, tags])) ∧
+      Prims sem semD ok st1 st2 ∧
+      (sem → ∃ s, getScope st2 sid = some s ∧ s.pfx = pfx ∧ s.tags = canon [ptags, tags]) ∧
+      (semD → ∃ s, getScope st2 sid = some s ∧ s.pfx = pfx ∧ s.tags = canon [ptags, tagsS])) ∧
     (∀ st2 evs2, relookF st1 sh (key pfx [ptags, tags]) (key pfx [ptags, tagsS]) = (none, st2, evs2) →
-      Prims sem ok st1
+      Prims sem semD ok st1
         (createF st2 { pfx := pfx, tags := mergeTags ptags tagsS, closed := false, isRoot := false,
                        metrics := [] } sh (key pfx [ptags, tags]) (key pfx [ptags, tagsS])) ∧
       (sem → ∃ s, getScope
           (createF st2 { pfx := pfx, tags := mergeTags ptags tagsS, closed := false, isRoot := false,
                          metrics := [] } sh (key pfx [ptags, tags]) (key pfx [ptags, tagsS]))
-          st2.scopes.length = some s ∧ s.pfx = pfx ∧ s.tags = canon [ptags, tags])) := by
+          st2.scopes.length = some s ∧ s.pfx = pfx ∧ s.tags = canon [ptags, tags]) ∧
+      (semD → ∃ s, getScope
+          (createF st2 { pfx := pfx, tags := mergeTags ptags tagsS, closed := false, isRoot := false,
+                         metrics := [] } sh (key pfx [ptags, tags]) (key pfx [ptags, tagsS]))
+          st2.scopes.length = some s ∧ s.pfx = pfx ∧ s.tags = canon [ptags, tagsS])) := by
   have hkeys : sem → key pfx [ptags, tagsS] = key pfx [ptags, tags] := by
     intro h
     rw [(hsem h).2]
@@ -335,22 +346,33 @@ theorem relook_spec (sem : Prop) (ok : Bytes → Nat → Prop) (st1 : St) (pfx :
     rw [(hsem h).2]
     exact canon_pair_canon_right ptags tags
   -- creation from a state in which the key is free
-  have hcreate : ∀ st2, Prims sem ok st1 st2 →
+  have hcreate : ∀ st2, Prims sem semD ok st1 st2 →
       (sem → st2.reg.lookup (sh, key pfx [ptags, tagsS]) = none) →
-      Prims sem ok st1
+      Prims sem semD ok st1
         (createF st2 { pfx := pfx, tags := mergeTags ptags tagsS, closed := false, isRoot := false,
                        metrics := [] } sh (key pfx [ptags, tags]) (key pfx [ptags, tagsS])) ∧
       (sem → ∃ s, getScope
           (createF st2 { pfx := pfx, tags := mergeTags ptags tagsS, closed := false, isRoot := false,
                          metrics := [] } sh (key pfx [ptags, tags]) (key pfx [ptags, tagsS]))
-          st2.scopes.length = some s ∧ s.pfx = pfx ∧ s.tags = canon [ptags, tags]) := by
+          st2.scopes.length = some s ∧ s.pfx = pfx ∧ s.tags = canon [ptags, tags]) ∧
+      (semD → ∃ s, getScope
+          (createF st2 { pfx := pfx, tags := mergeTags ptags tagsS, closed := false, isRoot := false,
+                         metrics := [] } sh (key pfx [ptags, tags]) (key pfx [ptags, tagsS]))
+          st2.scopes.length = some s ∧ s.pfx = pfx ∧ s.tags = canon [ptags, tagsS]) := by
     intro st2 hp hfree
-    obtain ⟨c1, c2⟩ := create_spec sem ok st2
+    have hcfg2 : st2.cfg = st1.cfg := (prims_ext hp).cfg
+    obtain ⟨c1, c2⟩ := create_spec sem semD ok st2
       { pfx := pfx, tags := mergeTags ptags tagsS, closed := false, isRoot := false, metrics := [] }
       sh (key pfx [ptags, tags]) (key pfx [ptags, tagsS]) rfl rfl rfl (fun h =>
         ⟨key_pair_eq pfx ptags tagsS, (hkeys h).symm, canonical_canon _, hfree h, by
           rw [hkeys h]; exact hok h⟩)
-    exact ⟨hp.trans c1, fun h => ⟨_, c2, rfl, htags h⟩⟩
+      (fun h => by
+        obtain ⟨_, hts, hdist, hpt⟩ := hsemD h
+        rw [hcfg2]
+        refine ⟨canonical_canon _, fixedTags_pair hpt (by rw [hts]; exact fixedTags_sanMap _ _),
+          .inl (key_pair_eq pfx ptags tagsS), .inr ⟨ptags, tags, hpt, hdist, rfl, ?_⟩⟩
+        rw [← hts]; rfl)
+    exact ⟨hp.trans c1, fun h => ⟨_, c2, rfl, htags h⟩, fun _ => ⟨_, c2, rfl, rfl⟩⟩
   rcases relookF_cases st1 sh (key pfx [ptags, tags]) (key pfx [ptags, tagsS]) with
     ⟨sid, s, hl, hg, he⟩ | ⟨sid, s, evs, hl, hg, hc, -, he⟩ | ⟨hl, he⟩
   · -- live hit under the sanitized key
@@ -364,13 +386,25 @@ theorem relook_spec (sem : Prop) (ok : Bytes → Nat → Prop) (st1 : St) (pfx :
         obtain ⟨s0, hg0, hk0⟩ := (hsem hs).1.reg sh _ sid (mem_of_lookup_eq_some hl)
         rw [hg] at hg0; cases hg0
         exact hk0
-      refine ⟨.one (.regAdd st1 sh _ sid s hg (fun hs => by rw [← hkeys hs]; exact hentry hs)), ?_⟩
-      intro hs
-      refine ⟨s, by rw [getScope_regAdd]; exact hg, ?_, ?_⟩
-      · exact (key_inj' (hentry hs)).1.symm
-      · have := (key_inj' (hentry hs)).2
-        rw [(hsem hs).1.canon sid s hg, htags hs] at this
-        exact this.symm
+      have hhit : semD → s.pfx = pfx ∧ s.tags = canon [ptags, tagsS] := by
+        intro hs
+        obtain ⟨hinv, hts, _, hpt⟩ := hsemD hs
+        have := hinv.hit hl hg hpt (m := tagsS) (by rw [hts]; exact sanDistinct_sanMap _ _) rfl
+        rw [hts, sanMap_sanMap, ← hts] at this
+        exact this
+      refine ⟨.one (.regAdd st1 sh _ sid s hg (fun hs => by rw [← hkeys hs]; exact hentry hs)
+        (fun hs => by
+          obtain ⟨_, hts, hdist, hpt⟩ := hsemD hs
+          refine .inr ⟨ptags, tags, hpt, hdist, by rw [(hhit hs).1], ?_⟩
+          rw [(hhit hs).2, hts])), ?_, ?_⟩
+      · intro hs
+        refine ⟨s, by rw [getScope_regAdd]; exact hg, ?_, ?_⟩
+        · exact (key_inj' (hentry hs)).1.symm
+        · have := (key_inj' (hentry hs)).2
+          rw [(hsem hs).1.canon sid s hg, htags hs] at this
+          exact this.symm
+      · intro hs
+        exact ⟨s, by rw [getScope_regAdd]; exact hg, hhit hs⟩
     · intro st2 evs2 h
       rw [he] at h
       simp at h
@@ -383,7 +417,7 @@ theorem relook_spec (sem : Prop) (ok : Bytes → Nat → Prop) (st1 : St) (pfx :
       rw [he] at h
       simp only [Prod.mk.injEq, true_and] at h
       obtain ⟨rfl, -⟩ := h
-      apply hcreate _ (clearRemove_prims sem ok hg hc sh _ _)
+      apply hcreate _ (clearRemove_prims sem semD ok hg hc sh _ _)
       intro hs
       rw [regRemove_reg, regRemove_reg]
       apply lookup_filter_none
@@ -404,20 +438,28 @@ theorem relook_spec (sem : Prop) (ok : Bytes → Nat → Prop) (st1 : St) (pfx :
       · obtain ⟨s0, hg0, _⟩ := (hsem hs).1.reg sh _ sid (mem_of_lookup_eq_some hl)
         rw [hg] at hg0; cases hg0
 
-/-- `subscope` is a composition of primitive transitions and, when the sanitizer leaves the tag map
-unchanged, the returned scope has the requested identity -/
-theorem subscope_spec (sem : Prop) (ok : Bytes → Nat → Prop) (st : St) (parent : Nat) (pfx : Bytes)
+/-- `subscope` is a composition of primitive transitions and the returned scope has the requested
+identity: under `sem` (the sanitizer leaves the tag map unchanged) the tags are the parent's overlaid by the
+map; under `semD` (generalised invariant, the map keeps its sanitized keys distinct) the tags are the
+parent's overlaid by the sanitized map -/
+theorem subscope_spec (sem semD : Prop) (ok : Bytes → Nat → Prop) (st : St) (parent : Nat) (pfx : Bytes)
     (tags : TagMap) (sh : Nat) (hsem : sem → Inv st ∧ sanMap st.cfg tags = canon [tags])
-    (hok : sem → ∀ p, getScope st parent = some p → ok (key pfx [p.tags, tags]) sh) :
-    Prims sem ok st (subscope st parent pfx tags sh).1 ∧
+    (hok : sem → ∀ p, getScope st parent = some p → ok (key pfx [p.tags, tags]) sh)
+    (hsemD : semD → InvD st ∧ SanDistinct st.cfg tags) :
+    Prims sem semD ok st (subscope st parent pfx tags sh).1 ∧
     (sem → ∀ p id evs, getScope st parent = some p →
       (subscope st parent pfx tags sh).2 = .scope (some id) evs →
       p.closed = false ∧ st.rootClosed = false ∧
       ∃ s, getScope (subscope st parent pfx tags sh).1 id = some s ∧ s.pfx = pfx ∧
-        s.tags = canon [p.tags, tags]) := by
+        s.tags = canon [p.tags, tags]) ∧
+    (semD → ∀ p id evs, getScope st parent = some p →
+      (subscope st parent pfx tags sh).2 = .scope (some id) evs →
+      p.closed = false ∧ st.rootClosed = false ∧
+      ∃ s, getScope (subscope st parent pfx tags sh).1 id = some s ∧ s.pfx = pfx ∧
+        s.tags = canon [p.tags, sanMap st.cfg tags]) := by
   rw [subscope_eq]
   cases hp : getScope st parent with
-  | none => exact ⟨.refl st, fun _ p id evs h => by cases h⟩
+  | none => exact ⟨.refl st, fun _ p id evs h => (by cases h), fun _ p id evs h => (by cases h)⟩
   | some p =>
     simp only
     cases hcl : (st.rootClosed || p.closed)
@@ -425,8 +467,9 @@ theorem subscope_spec (sem : Prop) (ok : Bytes → Nat → Prop) (st : St) (pare
       have hlive : p.closed = false ∧ st.rootClosed = false := by
         cases h1 : p.closed <;> cases h2 : st.rootClosed <;> simp_all
       -- the part after a probe miss
-      have hrest : ∀ st1 evs1, Prims sem ok st st1 → (sem → Inv st1) → st1.cfg = st.cfg →
-          Prims sem ok st
+      have hrest : ∀ st1 evs1, Prims sem semD ok st st1 → (sem → Inv st1) → (semD → InvD st1) →
+          st1.cfg = st.cfg →
+          Prims sem semD ok st
             (match relookF st1 sh (key pfx [p.tags, tags]) (key pfx [p.tags, sanMap st.cfg tags]) with
               | (some sid, st2, evs2) => (st2, Out.scope (some sid) (evs1 ++ evs2))
               | (none, st2, evs2) =>
@@ -451,49 +494,86 @@ theorem subscope_spec (sem : Prop) (ok : Bytes → Nat → Prop) (st : St) (pare
                                isRoot := false, metrics := [] } sh
                     (key pfx [p.tags, tags]) (key pfx [p.tags, sanMap st.cfg tags]),
                   Out.scope (some st2.scopes.length) (evs1 ++ evs2))).1 id = some s ∧ s.pfx = pfx ∧
-              s.tags = canon [p'.tags, tags]) := by
-        intro st1 evs1 hp1 hinv1 hcfg
-        obtain ⟨r1, r2⟩ := relook_spec sem ok st1 pfx p.tags tags (sanMap st.cfg tags) sh
+              s.tags = canon [p'.tags, tags]) ∧
+          (semD → ∀ p' id evs, some p = some p' →
+            (match relookF st1 sh (key pfx [p.tags, tags]) (key pfx [p.tags, sanMap st.cfg tags]) with
+              | (some sid, st2, evs2) => (st2, Out.scope (some sid) (evs1 ++ evs2))
+              | (none, st2, evs2) =>
+                (createF st2 { pfx := pfx, tags := mergeTags p.tags (sanMap st.cfg tags), closed := false,
+                               isRoot := false, metrics := [] } sh
+                    (key pfx [p.tags, tags]) (key pfx [p.tags, sanMap st.cfg tags]),
+                  Out.scope (some st2.scopes.length) (evs1 ++ evs2))).2 = .scope (some id) evs →
+            p'.closed = false ∧ st.rootClosed = false ∧
+            ∃ s, getScope
+              (match relookF st1 sh (key pfx [p.tags, tags]) (key pfx [p.tags, sanMap st.cfg tags]) with
+              | (some sid, st2, evs2) => (st2, Out.scope (some sid) (evs1 ++ evs2))
+              | (none, st2, evs2) =>
+                (createF st2 { pfx := pfx, tags := mergeTags p.tags (sanMap st.cfg tags), closed := false,
+                               isRoot := false, metrics := [] } sh
+                    (key pfx [p.tags, tags]) (key pfx [p.tags, sanMap st.cfg tags]),
+                  Out.scope (some st2.scopes.length) (evs1 ++ evs2))).1 id = some s ∧ s.pfx = pfx ∧
+              s.tags = canon [p'.tags, sanMap st.cfg tags]) := by
+        intro st1 evs1 hp1 hinv1 hinvD1 hcfg
+        obtain ⟨r1, r2⟩ := relook_spec sem semD ok st1 pfx p.tags tags (sanMap st.cfg tags) sh
           (fun h => ⟨hinv1 h, (hsem h).2⟩) (fun h => hok h p hp)
+          (fun h => ⟨hinvD1 h, by rw [hcfg], by rw [hcfg]; exact (hsemD h).2,
+            by rw [hcfg]; exact (hsemD h).1.fixed parent p hp⟩)
         rcases hr : relookF st1 sh (key pfx [p.tags, tags]) (key pfx [p.tags, sanMap st.cfg tags]) with
           ⟨_ | sid, st2, evs2⟩
-        · obtain ⟨a, b⟩ := r2 st2 evs2 hr
-          refine ⟨hp1.trans a, ?_⟩
-          intro hs p' id evs e1 e2
-          cases e1
-          simp only [Out.scope.injEq, Option.some.injEq] at e2
-          obtain ⟨rfl, -⟩ := e2
-          exact ⟨hlive.1, hlive.2, b hs⟩
-        · obtain ⟨a, b⟩ := r1 sid st2 evs2 hr
-          refine ⟨hp1.trans a, ?_⟩
-          intro hs p' id evs e1 e2
-          cases e1
-          simp only [Out.scope.injEq, Option.some.injEq] at e2
-          obtain ⟨rfl, -⟩ := e2
-          exact ⟨hlive.1, hlive.2, b hs⟩
+        · obtain ⟨a, b, c⟩ := r2 st2 evs2 hr
+          refine ⟨hp1.trans a, ?_, ?_⟩
+          · intro hs p' id evs e1 e2
+            cases e1
+            simp only [Out.scope.injEq, Option.some.injEq] at e2
+            obtain ⟨rfl, -⟩ := e2
+            exact ⟨hlive.1, hlive.2, b hs⟩
+          · intro hs p' id evs e1 e2
+            cases e1
+            simp only [Out.scope.injEq, Option.some.injEq] at e2
+            obtain ⟨rfl, -⟩ := e2
+            exact ⟨hlive.1, hlive.2, c hs⟩
+        · obtain ⟨a, b, c⟩ := r1 sid st2 evs2 hr
+          refine ⟨hp1.trans a, ?_, ?_⟩
+          · intro hs p' id evs e1 e2
+            cases e1
+            simp only [Out.scope.injEq, Option.some.injEq] at e2
+            obtain ⟨rfl, -⟩ := e2
+            exact ⟨hlive.1, hlive.2, b hs⟩
+          · intro hs p' id evs e1 e2
+            cases e1
+            simp only [Out.scope.injEq, Option.some.injEq] at e2
+            obtain ⟨rfl, -⟩ := e2
+            exact ⟨hlive.1, hlive.2, c hs⟩
       rcases probeF_cases st sh (key pfx [p.tags, tags]) (key pfx [p.tags, sanMap st.cfg tags]) with
         ⟨sid, s, hl, hg, _, he⟩ | ⟨sid, s, evs, hl, hg, hc, -, he⟩ | ⟨_, he⟩
       · -- live hit under the raw key
         rw [he]
-        refine ⟨.refl st, ?_⟩
-        intro hs p' id evs e1 e2
-        cases e1
-        simp only [Out.scope.injEq, Option.some.injEq] at e2
-        obtain ⟨rfl, -⟩ := e2
-        obtain ⟨s0, hg0, hk0⟩ := (hsem hs).1.reg sh _ sid (mem_of_lookup_eq_some hl)
-        rw [hg] at hg0; cases hg0
-        refine ⟨hlive.1, hlive.2, s, hg, (key_inj' hk0).1.symm, ?_⟩
-        have := (key_inj' hk0).2
-        rw [(hsem hs).1.canon sid s hg] at this
-        exact this.symm
+        refine ⟨.refl st, ?_, ?_⟩
+        · intro hs p' id evs e1 e2
+          cases e1
+          simp only [Out.scope.injEq, Option.some.injEq] at e2
+          obtain ⟨rfl, -⟩ := e2
+          obtain ⟨s0, hg0, hk0⟩ := (hsem hs).1.reg sh _ sid (mem_of_lookup_eq_some hl)
+          rw [hg] at hg0; cases hg0
+          refine ⟨hlive.1, hlive.2, s, hg, (key_inj' hk0).1.symm, ?_⟩
+          have := (key_inj' hk0).2
+          rw [(hsem hs).1.canon sid s hg] at this
+          exact this.symm
+        · intro hs p' id evs e1 e2
+          cases e1
+          simp only [Out.scope.injEq, Option.some.injEq] at e2
+          obtain ⟨rfl, -⟩ := e2
+          exact ⟨hlive.1, hlive.2, s, hg,
+            (hsemD hs).1.hit hl hg ((hsemD hs).1.fixed parent p hp) (hsemD hs).2 rfl⟩
       · rw [he]
-        have hp1 := clearRemove_prims sem ok hg hc sh (key pfx [p.tags, tags])
+        have hp1 := clearRemove_prims sem semD ok hg hc sh (key pfx [p.tags, tags])
           (key pfx [p.tags, sanMap st.cfg tags])
-        exact hrest _ evs hp1 (fun h => prims_inv h hp1 (hsem h).1) rfl
+        exact hrest _ evs hp1 (fun h => prims_inv h hp1 (hsem h).1)
+          (fun h => prims_invD h hp1 (hsemD h).1) rfl
       · rw [he]
-        exact hrest st [] (.refl st) (fun h => (hsem h).1) rfl
+        exact hrest st [] (.refl st) (fun h => (hsem h).1) (fun h => (hsemD h).1) rfl
     · simp only [if_true]
-      exact ⟨.refl st, fun _ p id evs _ h => by cases h⟩
+      exact ⟨.refl st, fun _ p id evs _ h => (by cases h), fun _ p id evs _ h => (by cases h)⟩
 
 /-! ## every operation -/
 
@@ -508,6 +588,11 @@ theorem sanFixed_of_none {cfg : Cfg} (h : cfg.san = none) (op : Op) : SanFixed c
   cases op <;> simp only [SanFixed]
   exact sanMap_none h _
 
+/-- the tag map of a `Tagged` request keeps its sanitized keys distinct -/
+def SanDistinctOp (cfg : Cfg) : Op → Prop
+  | .tagged _ m _ => SanDistinct cfg m
+  | _ => True
+
 /-- the shard carried by a sub/tagged request is acceptable for its raw key -/
 def WellSharded (ok : Bytes → Nat → Prop) (st : St) : Op → Prop
   | .sub p name sh => ∀ ps, getScope st p = some ps →
@@ -515,9 +600,9 @@ def WellSharded (ok : Bytes → Nat → Prop) (st : St) : Op → Prop
   | .tagged p tags sh => ∀ ps, getScope st p = some ps → ok (key ps.pfx [ps.tags, tags]) sh
   | _ => True
 
-theorem timer_prims (sem : Prop) (ok : Bytes → Nat → Prop) (st : St) (s : Nat) (n : Bytes) :
-    Prims sem ok st (step st (.timer s n)).1 := by
-  have h1 := getMetric_prims sem ok st s "timer" n (fun n => .timer n [])
+theorem timer_prims (sem semD : Prop) (ok : Bytes → Nat → Prop) (st : St) (s : Nat) (n : Bytes) :
+    Prims sem semD ok st (step st (.timer s n)).1 := by
+  have h1 := getMetric_prims sem semD ok st s "timer" n (fun n => .timer n [])
   have he := prims_ext h1
   simp only [step]
   split
@@ -544,8 +629,8 @@ theorem timer_prims (sem : Prop) (ok : Bytes → Nat → Prop) (st : St) (s : Na
         · exact .inl e
   · exact h1
 
-theorem close_prims (sem : Prop) (ok : Bytes → Nat → Prop) (st : St) (sid : Nat) :
-    Prims sem ok st (step st (.close sid)).1 := by
+theorem close_prims (sem semD : Prop) (ok : Bytes → Nat → Prop) (st : St) (sid : Nat) :
+    Prims sem semD ok st (step st (.close sid)).1 := by
   simp only [step]
   cases hg : getScope st sid with
   | none => exact .refl st
@@ -553,31 +638,33 @@ theorem close_prims (sem : Prop) (ok : Bytes → Nat → Prop) (st : St) (sid : 
     simp only
     split
     · exact .refl st
-    · have h1 : Prims sem ok st (setScope st sid { s with closed := true }) := .one (.closeScope st sid s hg)
+    · have h1 : Prims sem semD ok st (setScope st sid { s with closed := true }) := .one (.closeScope st sid s hg)
       split
       · exact h1
-      · have h2 : Prims sem ok st { setScope st sid { s with closed := true } with rootClosed := true } :=
+      · have h2 : Prims sem semD ok st { setScope st sid { s with closed := true } with rootClosed := true } :=
           h1.tail (.rootClosed _)
         split
         · exact h2
-        · exact (h2.trans (reportPass_prims sem ok _)).tail (Prim.purge _ _)
+        · exact (h2.trans (reportPass_prims sem semD ok _)).tail (Prim.purge _ _)
 
 /-- the operations that update a metric through its handle -/
 def IsUpd : Op → Prop
   | .inc .. | .upd .. | .record .. | .recv .. | .recd .. => True
   | _ => False
 
-theorem step_prims (sem : Prop) (ok : Bytes → Nat → Prop) (st : St) (op : Op)
+theorem step_prims (sem semD : Prop) (ok : Bytes → Nat → Prop) (st : St) (op : Op)
     (hmet : IsUpd op → MetInv st)
-    (hsem : sem → Inv st ∧ SanFixed st.cfg op ∧ WellSharded ok st op) :
-    Prims sem ok st (step st op).1 := by
+    (hsem : sem → Inv st ∧ SanFixed st.cfg op ∧ WellSharded ok st op)
+    (hsemD : semD → InvD st ∧ SanDistinctOp st.cfg op) :
+    Prims sem semD ok st (step st op).1 := by
   cases op with
   | sub p name sh =>
     simp only [step]
     cases hg : getScope st p with
     | none => exact .refl st
     | some ps =>
-      refine (subscope_spec sem ok st p _ [] sh (fun h => ⟨(hsem h).1, sanMap_nil _⟩) ?_).1
+      refine (subscope_spec sem semD ok st p _ [] sh (fun h => ⟨(hsem h).1, sanMap_nil _⟩) ?_
+        (fun h => ⟨(hsemD h).1, sanDistinct_nil _⟩)).1
       intro h p' hp'
       rw [hg] at hp'; cases hp'
       exact (hsem h).2.2 ps hg
@@ -586,34 +673,35 @@ theorem step_prims (sem : Prop) (ok : Bytes → Nat → Prop) (st : St) (op : Op
     cases hg : getScope st p with
     | none => exact .refl st
     | some ps =>
-      refine (subscope_spec sem ok st p _ tags sh (fun h => ⟨(hsem h).1, (hsem h).2.1⟩) ?_).1
+      refine (subscope_spec sem semD ok st p _ tags sh (fun h => ⟨(hsem h).1, (hsem h).2.1⟩) ?_
+        (fun h => ⟨(hsemD h).1, (hsemD h).2⟩)).1
       intro h p' hp'
       rw [hg] at hp'; cases hp'
       exact (hsem h).2.2 ps hg
-  | counter s n => exact getMetric_prims sem ok st s _ n _
-  | gauge s n => exact getMetric_prims sem ok st s _ n _
-  | timer s n => exact timer_prims sem ok st s n
-  | hist s n spec => exact getMetric_prims sem ok st s _ n _
+  | counter s n => exact getMetric_prims sem semD ok st s _ n _
+  | gauge s n => exact getMetric_prims sem semD ok st s _ n _
+  | timer s n => exact timer_prims sem semD ok st s n
+  | hist s n spec => exact getMetric_prims sem semD ok st s _ n _
   | inc m v =>
-    refine updMetric_prims sem ok st (hmet trivial) m _ ?_
+    refine updMetric_prims sem semD ok st (hmet trivial) m _ ?_
     intro s x; cases x <;> exact ⟨rfl, rfl⟩
   | upd m v =>
-    refine updMetric_prims sem ok st (hmet trivial) m _ ?_
+    refine updMetric_prims sem semD ok st (hmet trivial) m _ ?_
     intro s x; cases x <;> exact ⟨rfl, rfl⟩
   | record m d =>
     simp only [step]
     split
-    · refine updMetric_prims sem ok st (hmet trivial) m _ ?_
+    · refine updMetric_prims sem semD ok st (hmet trivial) m _ ?_
       intro s x; cases x <;> exact ⟨rfl, rfl⟩
     · split <;> exact .refl st
   | recv m v =>
-    refine updMetric_prims sem ok st (hmet trivial) m _ ?_
+    refine updMetric_prims sem semD ok st (hmet trivial) m _ ?_
     intro s x
     cases x with
     | hist n h => simp only; split <;> exact ⟨rfl, rfl⟩
     | _ => exact ⟨rfl, rfl⟩
   | recd m d =>
-    refine updMetric_prims sem ok st (hmet trivial) m _ ?_
+    refine updMetric_prims sem semD ok st (hmet trivial) m _ ?_
     intro s x
     cases x with
     | hist n h => simp only; split <;> exact ⟨rfl, rfl⟩
@@ -622,8 +710,8 @@ theorem step_prims (sem : Prop) (ok : Bytes → Nat → Prop) (st : St) (op : Op
     simp only [step]
     split
     · exact .refl st
-    · exact reportPass_prims sem ok st
-  | close sid => exact close_prims sem ok st sid
+    · exact reportPass_prims sem semD ok st
+  | close sid => exact close_prims sem semD ok st sid
 
 /-! ## the root state and reachable states -/
 
@@ -678,8 +766,8 @@ theorem runOps_induction {P : St → Prop} (hstep : ∀ st op, P st → P (step 
 
 /-- unconditional decomposition (any configuration) -/
 theorem step_prims_any (st : St) (op : Op) (hmet : MetInv st) :
-    Prims False (fun _ _ => True) st (step st op).1 :=
-  step_prims False _ st op (fun _ => hmet) (fun h => h.elim)
+    Prims False False (fun _ _ => True) st (step st op).1 :=
+  step_prims False False _ st op (fun _ => hmet) (fun h => h.elim) (fun h => h.elim)
 
 theorem step_metInv (st : St) (op : Op) (h : MetInv st) : MetInv (step st op).1 :=
   prims_metInv (step_prims_any st op h) h
@@ -717,8 +805,9 @@ theorem reach_timerInv {cfg : Cfg} {pfx sep : Bytes} {tags : TagMap} {st : St}
 
 /-- decomposition with the semantic side conditions -/
 theorem step_prims_sem (st : St) (op : Op) (hmet : MetInv st) (hinv : Inv st)
-    (hfix : SanFixed st.cfg op) : Prims True (fun _ _ => True) st (step st op).1 :=
-  step_prims True _ st op (fun _ => hmet) (fun _ => ⟨hinv, hfix, by cases op <;> simp [WellSharded]⟩)
+    (hfix : SanFixed st.cfg op) : Prims True False (fun _ _ => True) st (step st op).1 :=
+  step_prims True False _ st op (fun _ => hmet) (fun _ => ⟨hinv, hfix, by cases op <;> simp [WellSharded]⟩)
+    (fun h => h.elim)
 
 theorem step_inv (st : St) (op : Op) (hmet : MetInv st) (hinv : Inv st) (hfix : SanFixed st.cfg op) :
     Inv (step st op).1 :=
@@ -775,6 +864,81 @@ theorem reachF_inv {cfg : Cfg} {pfx sep : Bytes} {tags : TagMap} {st : St}
 theorem reach_inv {cfg : Cfg} {pfx sep : Bytes} {tags : TagMap} {st : St} (hns : cfg.san = none)
     (h : Reach cfg pfx sep tags st) : Inv st := reachF_inv (h.toF hns)
 
+/-! ## the generalised invariant: programs all of whose `Tagged` maps keep their sanitized keys distinct -/
+
+theorem mkRoot_invD (cfg : Cfg) (pfx sep : Bytes) (tags : TagMap) : InvD (mkRoot cfg pfx sep tags) := by
+  refine ⟨?_, (mkRoot_inv cfg pfx sep tags).canon, ?_⟩
+  · intro sh k sid hm
+    simp only [mkRoot, List.mem_map, List.mem_range, Prod.mk.injEq] at hm
+    obtain ⟨a, _, ⟨-, rfl⟩, rfl⟩ := hm
+    exact ⟨_, rfl, .inl rfl⟩
+  · intro sid s h
+    obtain ⟨_, rfl⟩ := getScope_mkRoot h
+    exact fixedTags_sanMap cfg tags
+
+/-- decomposition with the side conditions of the generalised invariant -/
+theorem step_prims_semD (st : St) (op : Op) (hmet : MetInv st) (hinv : InvD st)
+    (hd : SanDistinctOp st.cfg op) : Prims False True (fun _ _ => True) st (step st op).1 :=
+  step_prims False True _ st op (fun _ => hmet) (fun h => h.elim) (fun _ => ⟨hinv, hd⟩)
+
+/-- every operation preserves the generalised invariant -/
+theorem step_invD (st : St) (op : Op) (hmet : MetInv st) (hinv : InvD st)
+    (hd : SanDistinctOp st.cfg op) : InvD (step st op).1 :=
+  prims_invD trivial (step_prims_semD st op hmet hinv hd) hinv
+
+/-- programs all of whose `Tagged` maps keep their sanitized keys distinct -/
+def DistinctOps (cfg : Cfg) (ops : List Op) : Prop := ∀ op ∈ ops, SanDistinctOp cfg op
+
+/-- states reachable by such programs -/
+def ReachD (cfg : Cfg) (pfx sep : Bytes) (tags : TagMap) (st : St) : Prop :=
+  ∃ ops, DistinctOps cfg ops ∧ st = runOps (mkRoot cfg pfx sep tags) ops
+
+theorem ReachD.reach {cfg : Cfg} {pfx sep : Bytes} {tags : TagMap} {st : St}
+    (h : ReachD cfg pfx sep tags st) : Reach cfg pfx sep tags st := by
+  obtain ⟨ops, _, e⟩ := h
+  exact ⟨ops, e⟩
+
+theorem ReachD.root (cfg : Cfg) (pfx sep : Bytes) (tags : TagMap) :
+    ReachD cfg pfx sep tags (mkRoot cfg pfx sep tags) :=
+  ⟨[], fun _ h => (by cases h), rfl⟩
+
+theorem ReachD.run {cfg : Cfg} {pfx sep : Bytes} {tags : TagMap} {st : St}
+    (h : ReachD cfg pfx sep tags st) {ops : List Op} (hf : DistinctOps cfg ops) :
+    ReachD cfg pfx sep tags (runOps st ops) := by
+  obtain ⟨o, ho, rfl⟩ := h
+  refine ⟨o ++ ops, ?_, (runOps_append _ _ _).symm⟩
+  intro op hop
+  rcases List.mem_append.mp hop with h1 | h1
+  · exact ho op h1
+  · exact hf op h1
+
+theorem ReachD.step {cfg : Cfg} {pfx sep : Bytes} {tags : TagMap} {st : St}
+    (h : ReachD cfg pfx sep tags st) {op : Op} (hf : SanDistinctOp cfg op) :
+    ReachD cfg pfx sep tags (step st op).1 :=
+  h.run (ops := [op]) (fun o ho => by simp only [List.mem_singleton] at ho; subst ho; exact hf)
+
+/-- without a sanitizer: maps with distinct keys -/
+theorem sanDistinct_of_none {cfg : Cfg} (h : cfg.san = none) {m : TagMap} (hm : (m.map (·.1)).Nodup) :
+    SanDistinct cfg m := by
+  have : (m.map fun kv => sanKey cfg kv.1) = m.map (·.1) := by
+    apply List.map_congr_left
+    intro kv _
+    simp [sanKey, h]
+  unfold SanDistinct
+  rw [this]; exact hm
+
+theorem runOps_invD : ∀ (ops : List Op) (st : St), MetInv st → InvD st → DistinctOps st.cfg ops →
+    InvD (runOps st ops)
+  | [], _, _, h, _ => h
+  | op :: ops, st, h1, h2, h3 =>
+    runOps_invD ops _ (step_metInv st op h1) (step_invD st op h1 h2 (h3 op List.mem_cons_self))
+      (by rw [(step_ext st op h1).cfg]; exact fun o ho => h3 o (List.mem_cons_of_mem _ ho))
+
+theorem reachD_invD {cfg : Cfg} {pfx sep : Bytes} {tags : TagMap} {st : St}
+    (h : ReachD cfg pfx sep tags st) : InvD st := by
+  obtain ⟨ops, hf, rfl⟩ := h
+  exact runOps_invD ops _ (mkRoot_metInv cfg pfx sep tags) (mkRoot_invD cfg pfx sep tags) hf
+
 /-! ## programs whose shard is a function of the raw key -/
 
 /-- every sub/tagged request of the program carries `shardOf rawKey` -/
@@ -794,7 +958,8 @@ theorem ReachS.reach {shardOf : Bytes → Nat} {cfg : Cfg} {pfx sep : Bytes} {ta
 theorem step_liveReg (f : Bytes → Nat) (st : St) (op : Op) (hmet : MetInv st) (hinv : Inv st)
     (hfix : SanFixed st.cfg op) (hws : WellSharded (fun k sh => sh = f k) st op) (hl : LiveReg f st) :
     LiveReg f (step st op).1 :=
-  prims_liveReg trivial (step_prims True _ st op (fun _ => hmet) (fun _ => ⟨hinv, hfix, hws⟩)) hl
+  prims_liveReg trivial (step_prims True False _ st op (fun _ => hmet) (fun _ => ⟨hinv, hfix, hws⟩)
+    (fun h => h.elim)) hl
 
 theorem runOps_liveReg (f : Bytes → Nat) : ∀ (ops : List Op) (st : St), MetInv st → Inv st →
     FixedOps st.cfg ops → ShardedOps f st ops → LiveReg f st → LiveReg f (runOps st ops)
@@ -901,8 +1066,8 @@ theorem updMetric_sameId (st : St) (mid : Nat) (f : ScopeS → Metric → Metric
 
 theorem step_sameId (st : St) (op : Op) : SameId st (step st op).1 := by
   have hgen : (IsUpd op → False) → SameId st (step st op).1 := fun h =>
-    sameId_of_ext (prims_ext (step_prims False (fun _ _ => True) st op (fun x => (h x).elim)
-      (fun x => x.elim)))
+    sameId_of_ext (prims_ext (step_prims False False (fun _ _ => True) st op (fun x => (h x).elim)
+      (fun x => x.elim) (fun x => x.elim)))
   cases op with
   | inc m v => exact updMetric_sameId st m _
   | upd m v => exact updMetric_sameId st m _
